@@ -12,7 +12,9 @@ pub struct Number {
 }
 impl PartialEq for Number {
     fn eq(&self, other: &Self) -> bool {
-        (self.value - other.value).abs() / self.value.abs() <= f64::EPSILON
+        (self.value - other.value).abs()
+            / self.value.abs().max(other.value.abs())
+            <= f64::EPSILON
     }
 }
 impl Eq for Number {}
